@@ -37,6 +37,7 @@ fn main() {
         "packet" => tvh::packet::run(&mut rng, thorough, &corpus),
         "cksum" => tvh::cksum::run(&mut rng, thorough, &corpus),
         "ext" => tvh::ext::run(&mut rng, thorough, &corpus),
+        "conc" => tvh::conc::run(&mut rng, thorough, &corpus),
         "strategy" => tvh::strategy::run(&mut rng, thorough, &corpus),
         _ => { eprintln!("unknown component {comp}"); std::process::exit(2); }
     };
